@@ -155,6 +155,10 @@ func (i *interpreter) ensureInit(pkg *ssa.Package) {
 
 var initFailures = map[string]string{}
 
+// preemptMem makes every heap store a possible pre-emption point (within the pre-emption bound):
+// used by the harnesses that look for unsynchronised shared state.
+var preemptMem bool
+
 func describePanic(p interface{}) string {
 	switch p := p.(type) {
 	case targetPanic:
@@ -270,6 +274,11 @@ func visitInstr(fr *frame, instr ssa.Instruction) continuation {
 
 	case *ssa.Store:
 		storePtr(mustDeref(instr.Addr.Type()), fr.get(instr.Addr), fr.get(instr.Val))
+		if preemptMem && instr.Addr != nil {
+			if _, isAlloc := instr.Addr.(*ssa.Alloc); !isAlloc {
+				maybePreempt(fr, "store")
+			}
+		}
 
 	case *ssa.If:
 		succ := 1
@@ -371,6 +380,9 @@ func visitInstr(fr *frame, instr ssa.Instruction) continuation {
 			panic(targetPanic{iface{tRuntimeError, "assignment to entry in nil map"}})
 		}
 		m.insert(fr.get(instr.Key), copyVal(fr.get(instr.Value)))
+		if preemptMem {
+			maybePreempt(fr, "mapupdate")
+		}
 
 	case *ssa.TypeAssert:
 		fr.env[instr] = typeAssert(fr.i, instr, fr.get(instr.X).(iface))
